@@ -10,3 +10,30 @@ import (
 type avrotimeTime = time.Time
 
 func bytesReader(b []byte) avro.Reader { return bytes.NewReader(b) }
+
+// scribbleSchema overwrites every part of a Schema value its holder can reach (the value belongs to the
+// caller that received it): type names, names, sizes, symbols, field names, union branches, at every depth.
+func scribbleSchema(s *avro.Schema, seen map[*avro.SchemaObject]bool) {
+	for i := range s.Union {
+		scribbleSchema(&s.Union[i], seen)
+	}
+	if o := s.Object; o != nil && !seen[o] {
+		seen[o] = true
+		for i := range o.Fields {
+			scribbleSchema(&o.Fields[i].Type, seen)
+			o.Fields[i].Name = "scribbled_" + o.Fields[i].Name
+		}
+		scribbleSchema(&o.Items, seen)
+		scribbleSchema(&o.Values, seen)
+		for i := range o.Symbols {
+			o.Symbols[i] = "SCRIBBLED"
+		}
+		o.Name, o.Namespace, o.LogicalType, o.Size = "scribbled", "scribbled.ns", "scribbled-logical", o.Size+7
+	}
+	if s.Type != "" {
+		s.Type = "string"
+		if s.Object == nil && len(s.Union) == 0 {
+			s.Object = &avro.SchemaObject{LogicalType: "scribbled-logical"}
+		}
+	}
+}
